@@ -610,7 +610,7 @@ inline std::vector<Xf> const& transforms()
 constexpr int num_unary_transforms = 10;  // without "tiny"
 constexpr int num_binary_transforms = 11;
 constexpr int num_daughter_transforms = 7;
-constexpr int xf_tr = 1, xf_gen = 6, xf_tinyrot = 9, xf_tiny = 10;
+constexpr int xf_tr = 1, xf_rz = 4, xf_gen = 6, xf_tinyrot = 9, xf_tiny = 10;
 constexpr int xf_tiltp = 11, xf_tiltm = 12;
 constexpr int xf_far = 13, xf_far4 = 14, xf_far8 = 15, xf_farg = 16, xf_farg4 = 17, xf_farg8 = 18;
 //! Unit vector of the displacement between the far copies
@@ -1225,8 +1225,10 @@ inline std::vector<Key> enumerate(bool thorough, bool extended = false)
                         if (!thorough && npx > 1)
                         {
                             // quick: every (leaf transform, daughter transform) pair is still
-                            // covered, spread over the leaves' two polarities
-                            if ((px + xa + neg) % 2)
+                            // covered, spread over the leaves' two polarities (extended: the
+                            // parity alternates with the leaf index, so that over the leaves
+                            // BOTH polarities meet every transform pair)
+                            if ((px + xa + neg + (extended ? a : 0)) % 2)
                                 continue;
                         }
                         Key k;
@@ -1246,6 +1248,10 @@ inline std::vector<Key> enumerate(bool thorough, bool extended = false)
                     Key k;
                     k.kind = 'b';
                     k.a = a, k.b = b, k.op1 = op, k.xb = xb;
+                    // extended: on a third of the pairs the FIRST operand is placed too (quarter
+                    // turn about z + translation): two different leaves both off-centre / rotated
+                    if (extended && (a + 2 * b) % 3 == 0)
+                        k.xa = xf_rz;
                     k.place = thorough ? ((a + b + op + xb) % 2 ? pl_daughter_explicit : pl_implicit)
                                        : pl_implicit;
                     k.pxf = xf_gen;
@@ -1295,6 +1301,8 @@ inline std::vector<Key> enumerate(bool thorough, bool extended = false)
                 Key k;
                 k.kind = 'p';
                 k.a = a, k.b = b, k.xb = xb;
+                if (extended && (a + 2 * b) % 3 == 1)
+                    k.xa = xf_rz;
                 k.place = (a + b + xb) % 2 ? pl_explicit : pl_implicit;
                 keys.push_back(k);
             }
@@ -1316,6 +1324,8 @@ inline std::vector<Key> enumerate(bool thorough, bool extended = false)
                             k.kind = 't';
                             k.a = a, k.b = b, k.c = c, k.op1 = op1, k.op2 = op2;
                             k.xb = xf_tr, k.xc = xf_gen;
+                            if (extended && (a + 2 * b + c) % 3 == 2)
+                                k.xa = xf_rz;
                             k.place = pl_implicit;
                             keys.push_back(k);
                         }
@@ -1435,7 +1445,7 @@ inline void enumerate_extension(bool thorough, std::vector<Key>& keys)
                     int npx = pl == pl_self_daughter ? num_daughter_transforms : 1;
                     for (int px = 0; px < npx; ++px)
                     {
-                        if (!thorough && npx > 1 && (px + xa + neg) % 2)
+                        if (!thorough && npx > 1 && (px + xa + neg + a) % 2)
                             continue;
                         Key k;
                         k.kind = 'u';
